@@ -483,9 +483,18 @@ def shared_variant_types(dump):
         if e["kind"] != "enum" or not isinstance(e.get("tag"), dict): continue
         if "adjacent" in e["tag"]:
             tg, ct = e["tag"]["adjacent"]
-            ids = [named(v["details"]["item"]) for v in e["variants"] if isinstance(v["details"], dict) and "item" in v["details"]]
-            ids = [i for i in ids if i is not None]
-            if len(ids) != len(set(ids)): out.append((tg, {ct}))
+            def payload_named(dt):
+                """named types a variant's payload holds by value: the payload itself, or the elements of a tuple payload"""
+                if not isinstance(dt, dict): return []
+                ids = []
+                if "item" in dt:
+                    te = es.get(dt["item"])
+                    if te is not None and te["kind"] == "tuple": ids += [named(x) for x in te.get("ids", [])]
+                    else: ids.append(named(dt["item"]))
+                ids += [named(x) for x in dt.get("tuple") or []]
+                return [i for i in ids if i is not None]
+            per = [set(payload_named(v["details"])) for v in e["variants"]]
+            if any(per[a] & per[b] for a in range(len(per)) for b in range(a + 1, len(per))): out.append((tg, {ct}))
         elif "internal" in e["tag"]:
             tg = e["tag"]["internal"]; seen = {}; keys = set()
             for v in e["variants"]:
@@ -584,6 +593,58 @@ def pred_const_ignored(rec, doc):
                 if e and e.get("kind") in ("string", "integer", "float", "boolean", "json_value"): return True
     return False
 
+def _strip_scalar_const(x):
+    """the schema without the `const` of typed / untyped scalars that is not a union tag's (a `const` next to `enum` stays)"""
+    if isinstance(x, list): return [_strip_scalar_const(y) for y in x]
+    if not isinstance(x, dict): return x
+    out = {k: (_strip_scalar_const(v) if k not in ("default", "enum", "examples") else v) for k, v in x.items()}
+    if "const" in out and "enum" not in out and not isinstance(out["const"], (dict, list)): del out["const"]
+    return out
+
+def pred_const_ignored_elsewhere(rec, doc):
+    """a mutant that lands in ANOTHER branch of a union and is invalid there only because of `const` members (the finding's
+    mechanism away from the changed site): valid once every scalar `const` is removed from the document"""
+    if rec.kind != "tag" or '"const"' not in json.dumps(doc): return False
+    d2 = _strip_scalar_const(doc)
+    S2 = d2 if rec.ptr is None else gen.ptr_get(d2, rec.ptr[1:])
+    try: return gen.run_oracle([{"doc": d2, "schema": S2, "value": rec.value}])[0] is True
+    except Exception: return False
+
+def pred_allof_not_dropped(rec, doc):
+    """a deny-list mutant (`not: {enum}`) at a member of a definition that goes through an allOf merge, the member declared by
+    two members of the allOf: merge.rs keeps a `not` only while merging objects, the deny list of the member is lost"""
+    if rec.kind != "enum": return False
+    S = doc if rec.ptr is None else gen.ptr_get(doc, rec.ptr[1:])
+    if rec.at is None:          # hand-written probe: the members of the document itself
+        members = list(rec.value) if isinstance(rec.value, dict) else []
+    else:
+        if "denied value" not in (rec.desc or ""): return False
+        toks = gen.ptr_split(rec.at)
+        members = toks[-1:]
+    if not members: return False
+    def allofs(x, fuel=30):
+        if fuel <= 0: return
+        if isinstance(x, list):
+            for y in x: yield from allofs(y, fuel - 1)
+        elif isinstance(x, dict):
+            if isinstance(x.get("allOf"), list) and len(x["allOf"]) >= 2: yield x["allOf"]
+            if isinstance(x.get("$ref"), str):
+                try: yield from allofs(gen.resolve_ref(doc, x["$ref"]), fuel - 1)
+                except Exception: pass
+            for k, v in x.items():
+                if k not in ("default", "enum", "const", "examples", "definitions", "$defs"): yield from allofs(v, fuel - 1)
+    def declares(m, fuel=6, member=None):
+        while isinstance(m, dict) and "$ref" in m and fuel > 0:
+            try: m = gen.resolve_ref(doc, m["$ref"])
+            except Exception: return None
+            fuel -= 1
+        return (m.get("properties") or {}).get(member) if isinstance(m, dict) else None
+    for member in members:
+        for branches in allofs(S):
+            ds = [d for d in (declares(b, 6, member) for b in branches) if isinstance(d, dict)]
+            if len(ds) >= 2 and any("not" in d for d in ds): return True
+    return False
+
 def flatten_unions(dump):
     """ids of the structs whose members are ALL flattened, defaulted Option<struct>: what flattened_union_struct builds"""
     es = irutil.entries(dump); out = set()
@@ -606,9 +667,9 @@ def pred_flatten_union(rec, doc):
     st, parts = m3.norm_real("de", rec.ans["de"])
     return st == "ok" and bool(parts) and _lost_members(rec.value, json.loads(parts[0]))
 
-PREDICATES = {"C05-anyof-flatten-accepts-any": pred_flatten_union, "C05-bool-enum": pred_bool_enum, "C05-struct-seq-form": pred_struct_seq_form,
+PREDICATES = {"C05-allof-not-dropped": pred_allof_not_dropped, "C05-anyof-flatten-accepts-any": pred_flatten_union, "C05-bool-enum": pred_bool_enum, "C05-struct-seq-form": pred_struct_seq_form,
               "C05-adjacent-closed-wrapper": pred_adjacent_closed_wrapper, "C05-buffered-tag-index": pred_buffered_tag_index,
-              "C05-const-ignored": pred_const_ignored, "C05-unit-variant-map-form": pred_unit_variant_map_form,
+              "C05-const-ignored": lambda rec, doc: pred_const_ignored(rec, doc) or pred_const_ignored_elsewhere(rec, doc), "C05-unit-variant-map-form": pred_unit_variant_map_form,
               "C05-variant-shared-inline-type": pred_variant_shared_type}
 
 
